@@ -164,7 +164,51 @@ def run(chk, facts_dir, tier):
             sw = switch_on(rf, c["sw_block"], c["lhs"]["l"])
             if sw and op == "Ge" and any(edge_dominates(rf, c["sw_block"], sw[0], t[0]) for t in tos):
                 thr_ok += 1
-    if thr_ok >= 1 and len(tos) == 2:
+    flag_form = False
+    if len(tos) == 1 and thr_ok == 0:
+        # `let should_open = match state { Closed => failures >= threshold, HalfOpen => true, Open => false }; if should_open { open }`
+        thr_locals = set()
+        for c in comparisons(prog, rf, rev):
+            if has_field(c["b"], "failure_threshold") or has_field(c["a"], "failure_threshold"):
+                op = c["op"] if has_field(c["b"], "failure_threshold") else SWAP[c["op"]]
+                if op == "Ge" and not c["lhs"]["p"]:
+                    thr_locals.add(c["lhs"]["l"])
+        for L, defs in rf.defs.items():
+            ds = [d for d in defs if not d[2]["p"]]
+            if len(ds) < 2 or rf.local_ty(L).strip() != "bool":
+                continue
+            kinds = []
+            for (dbi, dsi, lhs, rv) in ds:
+                if rv.get("k") == "use" and "c" in rv["op"]:
+                    kinds.append("true" if "true" in str(rv["op"]["c"]) else ("false" if "false" in str(rv["op"]["c"]) else "?"))
+                elif rv.get("k") == "use" and op_place(rv["op"]) is not None and op_place(rv["op"])["l"] in thr_locals:
+                    kinds.append("thr")
+                elif rv.get("k") == "bin" and L in thr_locals:
+                    kinds.append("thr")
+                else:
+                    kinds.append("?")
+            # an unconditional `true` may only come from an arm other than the one that holds the threshold test (the Closed arm)
+            if "thr" in kinds and "?" not in kinds:
+                thr_blocks = [d[0] for d, k_ in zip(ds, kinds) if k_ == "thr"]
+                for (dbi, dsi, lhs, rv), k_ in zip(ds, kinds):
+                    if k_ != "true":
+                        continue
+                    ok_arm = False
+                    for sb3, place, targets, otherwise in discr_switches(rf):
+                        if "CircuitState" not in rf.local_ty(place["l"]):
+                            continue
+                        for v, tgt in list(targets.items()) + [("otherwise", otherwise)]:
+                            if tgt is not None and edge_dominates(rf, sb3, tgt, dbi) and not any(edge_dominates(rf, sb3, tgt, tb) for tb in thr_blocks):
+                                ok_arm = True
+                    if not ok_arm:
+                        kinds[kinds.index(k_)] = "?"
+            if "thr" in kinds and "?" not in kinds:
+                for sb2, blk in enumerate(rf.blocks):
+                    if blk["t"]["k"] == "switch":
+                        sw = switch_on(rf, sb2, L)
+                        if sw and edge_dominates(rf, sb2, sw[0], tos[0][0]):
+                            flag_form = True
+    if (thr_ok >= 1 and len(tos) == 2) or flag_form:
         chk.ok("R26.4", "record_failure opens under failures >= failure_threshold (Closed) or unconditionally from HalfOpen", rf.where())
     else:
         chk.fail("R26.4", rf.path, "open-condition", "the breaker no longer opens exactly on `failures >= failure_threshold` in Closed or on any failure in HalfOpen (threshold guards: %d, open sites: %d)" % (thr_ok, len(tos)), rf)
